@@ -31,6 +31,14 @@ CHECKS = {
              'are exhausted, abandoned after k answers by close or drop, or kept suspended while other predicates are changed. Each op result and, '
              'after every op, the complete contents of all predicates are compared with a list model; any exception is a violation.',
         note='Ground facts only and no same-predicate mutation during an enumeration (those are C13/C14), so every reading of the statement gives the same lists. Trusts the 60-line list model.'),
+    'C14': dict(
+        category='exploration', design_ref='DESIGN.md section 4, C14',
+        technique='deterministic simulation: seeded interleavings of suspended query/retract enumerations with mutations of the same predicate, against a logical-update-view snapshot model; bounded liveness by executed-line budget',
+        text='A seeded scheduler interleaves up to three simultaneously suspended enumerations (query or retract, any cursor position) with asserta/'
+             'assertz/retract/retractall/clear and the compiled failure-driven update idioms on the same predicate; half of the mutations are aimed at the '
+             'record next to a suspended cursor. Every step and, after every event, the whole store are compared with a snapshot model; the update '
+             'idioms must terminate within a stated number of executed lines (deterministic liveness verdict).',
+        note='A goal starts at its first next(); ground facts only. Trusts the snapshot model (about 100 lines). Liveness bound 20000 lines against < 1500 needed.'),
     'C18': dict(
         category='exploration', design_ref='DESIGN.md section 4, C18',
         technique='deterministic simulation of the environment: pool of fresh interpreters with seeded PYTHONHASHSEED, fake clock/pid and seeded compile histories; byte comparison',
@@ -53,7 +61,7 @@ NOT_APPLICABLE = [
 ]
 
 PENDING = {p: 'claimed in DESIGN.md; its check is not built yet at this commit (work in progress), so nothing is claimed for it here' for p in
-           ['C04', 'C08', 'C13', 'C14', 'C15', 'C17', 'C20']}   # property id -> reason, for claimed-in-design properties whose check is not built yet
+           ['C04', 'C08', 'C13', 'C15', 'C17', 'C20']}   # property id -> reason, for claimed-in-design properties whose check is not built yet
 
 
 def main():
